@@ -297,9 +297,9 @@ def spell(tok: Any, gen_cache: Dict[str, Optional[List[str]]]) -> Optional[List[
 class Check(PropertyCheck):
     id = 'C15'
     props_module = 'Props.C15'
-    models = {'exprprint': 'XExprPrint.v'}
+    models = {'exprprint': 'XExprPrint.v', 'delim': 'XDelim.v'}
     needs_gen = True
-    gen_modules = ['gen_c15']
+    gen_modules = ['gen_c15', 'gen_c15_code']
     rule = ('every form of the quantifier (unary, binary, boolean, comparison, conditional, call, subscript, attribute, container, '
             'starred) with leaf children, every tree of depth two over them (forms with more than two child slots: every '
             'assignment with at most two non-leaf children), every operator chain of depth three over unary/binary/boolean '
@@ -310,8 +310,11 @@ class Check(PropertyCheck):
         'Coq 8.16.1 kernel (coqc; vm_compute for table facts and _refuted witnesses; no native_compute)',
         'no axioms (Print Assumptions: Closed under the global context for every theorem)',
         'extraction: ExtrOcamlBasic only; OCaml 4.13.1; coq/ocaml/driver.ml',
-        'translator harness/gen/gen_c15.py (astor precedences as pydoctor calls them, operator spellings and the '
-        '_str_escape table read from the source, fail-closed)',
+        'translators harness/gen/gen_c15.py (astor precedences, operator spellings and the _str_escape table, extracted '
+        'from the behaviour of the live code) and harness/gen/gen_c15_code.py (the body of _OperatorDelimiter.__init__ and of '
+        'the pydoctor helpers it calls -> Gen/DelimCode.v in the language of Model/DelimIR.v), both fail-closed; the '
+        'primitives of Model/DelimIR.v (parent lookup, ast class hierarchy, get_op_precedence = the regenerated table, '
+        'explicit_precedence only set for children of non-operator parents, attribute access)',
         'correspondence harness harness/c15.py + harness/impl/c15_colorize.py; CPython tokenize/ast.parse as the reference '
         'reader (Spec/PyGrammar.v is validated against it)',
         'modelled not verified: str(number), astor.to_source for delegated forms (comparison, conditional, lambda, slices, '
@@ -335,7 +338,10 @@ class Check(PropertyCheck):
                  'read back as literals are the value for every string and byte string (C15_str_escape_roundtrip, '
                  'C15_bytes_escape_roundtrip, _old_refuted witnesses for the two repaired defects); the re.compile colouriser '
                  'is modelled at the envelope level (C15_re_fallback, C15_re_envelope_text, recorded defect '
-                 'C15_re_unpack_dropped_refuted). Model and code are tied node for node by an exhaustive correspondence check '
+                 'C15_re_unpack_dropped_refuted). Tie to the source: the body of _OperatorDelimiter.__init__ (helpers inlined) is '
+                 'translated on every run into a deep-embedded language and C15_code_init_is_model proves that interpreting it is '
+                 'the model decision needs_paren for every operator and parent situation; C15_code_dispatch_is_model ties the '
+                 'dispatch of _colorize_ast onto the delimiter. Model and code are also tied node for node by an exhaustive correspondence check '
                  '(every form, every depth-two tree, every depth-three operator chain, every literal kind, re.compile calls, '
                  'all line-length x max-lines x linebreakok x parent-context settings, random deeper trees); the spec '
                  'tokenizer and reader are run on every real output and validated against CPython tokenize / ast.parse, and '
@@ -520,6 +526,7 @@ class Check(PropertyCheck):
             self.sample({'expr': c[0], 'linelen': c[1], 'maxlines': c[2], 'linebreakok': c[3], 'ctx': c[4]})
 
         self.stats['t_explain'] = round(time.time() - t0, 1)
+        out.extend(self.delim_leg())
         # the driver only searches when no oracle failure at all is at hand, and the recorded defects always are:
         # widen the search here when model and code disagree and the oracle has nothing new to say on this domain
         breaks = [v for v in out if v.kind != 'oracle']
@@ -529,6 +536,27 @@ class Check(PropertyCheck):
             out.extend(found)
         self.spec_validation(acc['m1'])
         self.stats['t_specval'] = round(time.time() - t0, 1)
+        return out
+
+    def delim_leg(self) -> List[Violation]:
+        """Third leg for the parenthesis decision: the interpretation of the code TRANSLATED from _OperatorDelimiter.__init__
+        (Gen/DelimCode.v), the hand model, and the real constructor, on every operator x every parent situation."""
+        ops = [[0, i] for i in range(4)] + [[1, i] for i in range(13)] + [[2, i] for i in range(2)]
+        sits: List[List[int]] = [[0], [1]] + [[2, u] for u in range(4)] + [[3, b, r] for b in range(13) for r in (0, 1)] + \
+            [[4, o] for o in range(2)] + [[5, c] for c in range(3)] + [[5, c, p] for c in range(3) for p in (0, 21, 33, 34, 48, 55, 56, 63)]
+        cases = [[o, s] for o in ops for s in sits]
+        real = lib.run_impl_worker('c15_delim.py', cases, jobs=8)
+        mod = self.model('delim', [enc(c) for c in cases])
+        out: List[Violation] = []
+        for c, r, m in zip(cases, real, mod):
+            got = dec(m)
+            want = None if isinstance(r, dict) else [int(r), int(r)]
+            if got != want and len(out) < 5:
+                out.append(Violation('correspondence', 'the code translated from _OperatorDelimiter.__init__ (Gen/DelimCode.v, '
+                                     'interpreted), the model decision and the real constructor disagree on self.discard',
+                                     case=None, expected={'operator_and_situation': c, 'interpreted_code_and_model': got}, observed=r))
+        self.stats['delimiter_decisions_compared'] = len(cases)
+        self.evaluations += len(cases)
         return out
 
     def run_batch(self, cases: List[List[Any]], acc: Dict[str, Any]) -> None:
